@@ -234,6 +234,30 @@ fn build(prop: &str, tier: &str) -> Stream {
         }
     }
 
+    // ---- a control sequence with resize-like parameters ended by every byte that is not 't', then every printable byte:
+    // by the grammar of control sequences (parameters, intermediates, one final byte) none of these streams requests a resize, and the
+    // text behind a finished (or rejected) sequence is text
+    if c09 {
+        for emu in [Emu::Ansi(0), Emu::Ansi(3), Emu::Avatar] {
+            let mut t: Vec<Token> = Vec::new();
+            for params in ["8;1;1", "8;2;3", "8;1", ";8;1;1;", "8;;"] {
+                for b in (0x20u8..=0x7e).filter(|b| !b.is_ascii_digit() && *b != b';' && *b != b't' && *b != b':') {
+                    let mut bytes = format!("\x1b[{params}").into_bytes();
+                    bytes.push(b);
+                    t.push(Token { bytes, key: format!("noresize: CSI {params} ended by {b:02x}") });
+                }
+            }
+            for b in 0x20u8..=0x7e {
+                t.push(Token { bytes: vec![b], key: format!("noresize: byte {b:02x}") });
+            }
+            let toks = Rc::new(t);
+            for (w, h) in [(80, 25), (4, 3)] {
+                let ctxs = contexts(emu, w, h);
+                s.push("csi then byte", emu, w, h, &ctxs[0], &toks, 2, 1);
+            }
+        }
+    }
+
     // ---- triples
     {
         let emu = Emu::Ansi(3);
@@ -335,6 +359,13 @@ fn run_case(prop: &str, c: &CaseView, ctx: &mut Ctx) {
                 }
                 if c09 {
                     if term.resized {
+                        if c.tokens.iter().all(|t| t.key.starts_with("noresize:")) {
+                            ctx.violation(
+                                format!("inv:resized-without-request:{}:{}", family(c.emu), c.tokens[0].key.split(" ended by ").nth(1).map(|x| format!("CSI ended by {x}")).unwrap_or_else(|| "text".into())),
+                                json!({"emulation": c.emu.name(), "size": [c.w, c.h], "tokens": c.tokens.iter().map(|t| String::from_utf8_lossy(&t.bytes).to_string()).collect::<Vec<_>>(),
+                                       "terminal_now": [term.buf.terminal_state.get_width(), term.buf.terminal_state.get_height()]}),
+                            );
+                        }
                         break 'outer;
                     }
                     monitor(&term, c, &t.key, ti, bi, &mut reported, &mut now_bad, ctx);
